@@ -203,6 +203,8 @@ var c20Pool = []string{"$a + 1", "[$a + 1, $a]", "[$a + $a, $a, $b]", "$a", "$a 
 	// locals keep every digit: integers beyond 2^53 and their successors
 	"$a = [x, 1]", "$a = [1, k]", "$b = [$a, x]", "$a = [x, 1], $a = [k], $a", // locals holding lists, re-bound to other lists
 	"$a = 7, this.$a", "$b = x, [this.$b, $b, this.x]", "$a = $a, this.$a",
+	// locals bound inside a list or under a condition, also as the first thing a runner without a map does
+	"[$a = 6, $a + 1]", "$b = [$a = 4], $a", "$a = true ? 7 : 8", "$b = false ? $a : k", "$a = x == 1 ? x : k", "$a = k ?? 3",
 	// data entries named like builtins are entries all the same when read through this.
 	"this.len", "[this.len, this.year, this.x]", "$a = this.len, [$a, this.$a]", "this.year ?? 0", "$b = this.max ?? x",
 	"$a = 9007199254740993", "$b = $a + 1, [$a, $b, $a == $b]", "$a = 1234567890123456789, $a + 0", "[$a == 9007199254740993, $a == 9007199254740992]"}
@@ -210,7 +212,7 @@ var c20Pool = []string{"$a + 1", "[$a + 1, $a]", "[$a + $a, $a, $b]", "$a", "$a 
 var c20Alphabet = []runnerOp{
 	{Op: "setthis", Map: "A"}, {Op: "setthis", Map: "B"}, {Op: "setthis", Map: ""}, {Op: "setthis", Map: "E"},
 	{Op: "setvalue", Key: "x", Val: 50}, {Op: "setvalue", Key: "$a", Val: 60},
-	{Op: "resolve", F: "$a = x + 1, this.$a"}, {Op: "resolve", F: "[x, $a, k]"}, {Op: "resolve", F: "$a = 5"}, {Op: "resolve", F: "this.x"}, {Op: "resolve", F: "[$a + 1, $a]"},
+	{Op: "resolve", F: "$a = x + 1, this.$a"}, {Op: "resolve", F: "[x, $a, k]"}, {Op: "resolve", F: "$a = 5"}, {Op: "resolve", F: "this.x"}, {Op: "resolve", F: "[$a + 1, $a]"}, {Op: "resolve", F: "[$a = 6, $a]"},
 	{Op: "write", Key: "x", Val: 70},
 	{Op: "set", Key: "x", Val: 99}, {Op: "get", Key: "x"}, {Op: "get", Key: "$a"}, {Op: "set", Key: "$a", Val: 98},
 }
@@ -265,7 +267,7 @@ func historyNontrivial(hh history) bool {
 // TestC20Exhaustive: all sequences of up to k actions over the alphabet.
 func TestC20Exhaustive(t *testing.T) {
 	k := h.N(4, 6)
-	run := h.Begin("C20", "exhaustive", fmt.Sprintf("bounded-exhaustive: every history of 1..%d operations over a %d-operation alphabet {SetThis(A|B|an empty map|nil), SetThisValue(x|$a), Resolve of 4 pool formulas that read and assign locals and fields, Set(x|$a), Get(x|$a), the caller writing x into the map it handed over} on one runner, with keys shared between the two caller maps and the auxiliary store; oracle: a model with 'this' as a reference to caller map A, B, a runner-created map or nothing, and a separate auxiliary map - every Resolve result and every Get must match, and the caller maps must equal the model's after every step; non-trivial: a local surviving to a later evaluation, a map replacement that hides or restores a local, SetThisValue on a map-less runner, or a key present in both stores", k, len(c20Alphabet)))
+	run := h.Begin("C20", "exhaustive", fmt.Sprintf("bounded-exhaustive: every history of 1..%d operations over a %d-operation alphabet {SetThis(A|B|an empty map|nil), SetThisValue(x|$a), Resolve of 6 pool formulas that read and assign locals and fields, Set(x|$a), Get(x|$a), the caller writing x into the map it handed over} on one runner, with keys shared between the two caller maps and the auxiliary store; oracle: a model with 'this' as a reference to caller map A, B, a runner-created map or nothing, and a separate auxiliary map - every Resolve result and every Get must match, and the caller maps must equal the model's after every step; non-trivial: a local surviving to a later evaluation, a map replacement that hides or restores a local, SetThisValue on a map-less runner, or a key present in both stores", k, len(c20Alphabet)))
 	defer run.End(t)
 	enumSeq(len(c20Alphabet), k, func(seq []int) {
 		if run.NViolations() >= 3 {
@@ -294,7 +296,7 @@ func TestC20Exhaustive(t *testing.T) {
 
 // TestC20Random: longer histories with the full formula pool.
 func TestC20Random(t *testing.T) {
-	run := h.Begin("C20", "random", "rapid: histories of 1-14 operations drawn from the same operation kinds with random keys {x, k, $a, $b, __v, $__v, len, year}, random integer values (1 in 5 beyond 2^53) or strings that look like timestamps / numbers / keywords, and the 34-formula pool (locals are entries of the data map: also read back through this.$name within the same evaluation); same oracle; non-trivial as in the exhaustive part; distinct by history")
+	run := h.Begin("C20", "random", "rapid: histories of 1-14 operations drawn from the same operation kinds with random keys {x, k, $a, $b, __v, $__v, len, year}, random integer values (1 in 5 beyond 2^53) or strings that look like timestamps / numbers / keywords, and the 40-formula pool (locals are entries of the data map: also read back through this.$name within the same evaluation); same oracle; non-trivial as in the exhaustive part; distinct by history")
 	defer run.End(t)
 	h.RapidSetup(h.N(6000, 2000000), "c20rand")
 	rapid.Check(t, func(rt *rapid.T) {
